@@ -13,16 +13,25 @@ Subset: module-level functions and static/class/instance methods with positional
 `and/or/not`, comparisons (by inferred type), `in`/`not in` on literal tuples and on strings,
 `is None`, `+ - *` on ints, `+` on str/list, str methods startswith/endswith/find/split/join/
 strip/lstrip/rstrip, `len`, `str`, slices `s[a:b]`, constant indices, f-strings of simple
-expressions, tuples, list literals, `any/all/map`, list comprehensions, conditional
+expressions, `"..{}..".format(a, ..)` on a literal with plain `{}` fields, generator expressions /
+list comprehensions as the sole argument of join/any/all/list, tuples, list literals, `any/all/map`, list comprehensions, conditional
 expressions, attribute access on declared records, module/class constants, calls to other
 functions of the same module, declared casts (identity) and declared opaque functions
-(become parameters).  Types: str->string, int->Z (N where declared), bool, List->list,
+(become parameters), declared extern pure functions (mapped to a Coq function).  Functions that
+`raise X(msg)` / `assert c` (statements in sequence, not inside loops or try) return
+`(string * string) + T` (`inl (exception class name, message)`; a procedure has T = unit); a call
+of such a function as a statement or `x = f(..)` is a monadic bind.  `if x is None` / `is not None`
+on an Optional name or attribute chain becomes a `match` that narrows x in the Some branch (also
+inside `x is None or ...` / `x is not None and ...`).  `super().m(...)` resolves through the
+spec's `bases`; functions of `extra_sources` modules can be called.  Types: str->string, int->Z (N where declared), bool, List->list,
 Tuple->right-nested product, Optional->option.
 """
 from __future__ import annotations
 
 import ast
 import hashlib
+import os
+import re
 import sys
 from dataclasses import dataclass, field
 from typing import Any, Dict, List, Optional, Tuple
@@ -33,7 +42,7 @@ Prop return Set then Type using where with andb orb negb true false Some None fs
 """.split())
 
 
-BUILTINS = ("any", "all", "len", "str", "map")
+BUILTINS = ("any", "all", "len", "str", "map", "list")
 
 
 class Refuse(Exception):
@@ -51,14 +60,17 @@ class Result:
     constants: List[str] = field(default_factory=list)
     partial: List[str] = field(default_factory=list)     # partial operations read totally
     assumed: List[str] = field(default_factory=list)     # casts / opaque functions used
+    extra_sha256: Dict[str, str] = field(default_factory=dict)
 
 
 def coq_type(t) -> str:
     if t in (STR,):
         return "string"
-    if t in (BOOL, Z, N):
+    if t in (BOOL, Z, N, "unit"):
         return t
     k = t[0]
+    if k == "result":
+        return f"((string * string) + {coq_type(t[1])})"
     if k == "list":
         return f"(list {coq_type(t[1])})"
     if k == "option":
@@ -79,13 +91,17 @@ def coq_str(s: str) -> str:
 
 
 class Tr:
-    def __init__(self, path: str, src: str, spec: Dict[str, Any]):
+    def __init__(self, path: str, src: str, spec: Dict[str, Any], extra=()):
         self.path, self.spec = path, spec
-        self.tree = ast.parse(src, filename=path)
-        self.funcs: Dict[str, Tuple[ast.FunctionDef, Optional[ast.ClassDef]]] = {}
+        self.funcs: Dict[str, Tuple[ast.FunctionDef, Optional[ast.ClassDef], str]] = {}
         self.consts: Dict[str, Tuple[ast.AST, Optional[ast.AST]]] = {}
-        for st in self.tree.body:
-            self._index(st, None)
+        for mpath, msrc in [(path, src), *extra]:        # the first module wins on name clashes
+            self.ipath = mpath
+            for st in ast.parse(msrc, filename=mpath).body:
+                self._index(st, None)
+        self.nfresh = 0
+        self.bind_node = None        # the raising call currently translated in statement position
+        self._raising: Dict[str, bool] = {}
         self.out: Dict[str, str] = {}            # coq name -> definition text (in order)
         self.sigs: Dict[str, Any] = {}           # python qualname -> (coq name, param list, ret type)
         self.ctypes: Dict[str, Any] = {}
@@ -95,14 +111,14 @@ class Tr:
     def _index(self, st, cls):
         pre = f"{cls.name}." if cls else ""
         if isinstance(st, ast.FunctionDef):
-            self.funcs[pre + st.name] = (st, cls)
+            self.funcs.setdefault(pre + st.name, (st, cls, self.ipath))
         elif isinstance(st, ast.ClassDef) and cls is None:
             for s in st.body:
                 self._index(s, st)
         elif isinstance(st, ast.Assign) and len(st.targets) == 1 and isinstance(st.targets[0], ast.Name):
-            self.consts[pre + st.targets[0].id] = (st.value, None)
+            self.consts.setdefault(pre + st.targets[0].id, (st.value, None))
         elif isinstance(st, ast.AnnAssign) and isinstance(st.target, ast.Name) and st.value is not None:
-            self.consts[pre + st.target.id] = (st.value, st.annotation)
+            self.consts.setdefault(pre + st.target.id, (st.value, st.annotation))
 
     def no(self, node, why):
         raise Refuse(self.path, node, why)
@@ -223,6 +239,66 @@ class Tr:
         except Refuse:
             return False
 
+    # ---------------------------------------------------------------- call targets, raising functions
+    def target(self, f, cls) -> Optional[str]:
+        """Python qualname of the module function / method a call expression refers to, if any."""
+        special = set(self.spec.get("opaque", {})) | set(self.spec.get("casts", {})) | set(self.spec.get("extern", {}))
+        if ast.unparse(f) in special:
+            return None
+        if isinstance(f, ast.Name):
+            return f.id if f.id in self.funcs and f.id not in BUILTINS else None
+        if isinstance(f, ast.Attribute) and cls:
+            if isinstance(f.value, ast.Name) and f.value.id in ("cls", "self") and f"{cls}.{f.attr}" in self.funcs:
+                return f"{cls}.{f.attr}"
+            if isinstance(f.value, ast.Call) and isinstance(f.value.func, ast.Name) and f.value.func.id == "super" \
+                    and not f.value.args and not f.value.keywords:
+                base = self.spec.get("bases", {}).get(cls)
+                if base and f"{base}.{f.attr}" in self.funcs:
+                    return f"{base}.{f.attr}"
+        return None
+
+    def raising(self, qual: str, seen=()) -> bool:
+        """Syntactic: the function contains raise/assert or calls a function that does."""
+        if qual in self._raising:
+            return self._raising[qual]
+        fn, cls, _ = self.funcs[qual]
+        r = False
+        for n in ast.walk(fn):
+            if isinstance(n, (ast.Raise, ast.Assert)):
+                r = True
+            elif isinstance(n, ast.Call):
+                q = self.target(n.func, cls.name if cls else None)
+                if q and q != qual and q not in seen and self.raising(q, (*seen, qual)):
+                    r = True
+        self._raising[qual] = r
+        return r
+
+    def raising_call(self, e, env) -> bool:
+        if not isinstance(e, ast.Call):
+            return False
+        q = self.target(e.func, env.cls)
+        return bool(q) and self.raising(q)
+
+    def has_exit(self, stmts, env) -> bool:
+        return any(isinstance(n, (ast.Return, ast.Raise, ast.Assert)) or self.raising_call(n, env)
+                   for s in stmts for n in ast.walk(s))
+
+    def fresh(self, hint: str) -> str:
+        self.nfresh += 1
+        return re.sub(r"[^A-Za-z0-9_]", "_", hint) + f"_v{self.nfresh}"
+
+    def none_test(self, e, env):
+        """(subject expression, True for `is None`) if e is a None test on a pure name/attribute chain."""
+        if isinstance(e, ast.Compare) and len(e.ops) == 1 and isinstance(e.ops[0], (ast.Is, ast.IsNot)) \
+                and isinstance(e.comparators[0], ast.Constant) and e.comparators[0].value is None:
+            x = e.left
+            while isinstance(x, ast.Attribute):
+                x = x.value
+            if isinstance(x, ast.Name) and x.id in env.vars and x.id not in env.mutated \
+                    and ast.unparse(e.left) not in env.narrow:
+                return e.left, isinstance(e.ops[0], ast.Is)
+        return None
+
     # ---------------------------------------------------------------- functions
     def function(self, qual: str, node=None):
         if qual in self.sigs:
@@ -231,7 +307,8 @@ class Tr:
             self.no(node or "Module", f"function {qual!r} not found")
         if qual in self.busy:
             self.no(node or self.funcs[qual][0], f"recursive function {qual}")
-        fn, cls = self.funcs[qual]
+        fn, cls, mpath = self.funcs[qual]
+        saved_path, self.path = self.path, mpath
         fspec = next((f for f in self.spec.get("functions", []) if f["py"] == qual), {})
         a = fn.args
         if a.vararg or a.kwarg or a.kwonlyargs or a.posonlyargs:
@@ -262,6 +339,12 @@ class Tr:
         env.ret = ret
         self.busy.append(qual)
         body = [s for s in fn.body if not (isinstance(s, ast.Expr) and isinstance(s.value, ast.Constant) and isinstance(s.value.value, str))]
+        env.raises = self.raising(qual)
+        env.proc = not any(isinstance(n, ast.Return) and n.value is not None for s in body for n in ast.walk(s))
+        if env.proc and any(isinstance(n, ast.Return) for s in body for n in ast.walk(s)):
+            self.no(fn, "bare return")
+        if env.proc and env.raises:
+            env.ret = "unit"
         env.mutated = mutated_names(body)
         for m in env.mutated & env.params:
             self.no(fn, f"parameter {m!r} is mutated (side effect visible to the caller)")
@@ -276,11 +359,12 @@ class Tr:
             self.res.assumed.append(f"{qual}: opaque function {oname}() is a parameter py_{oname}")
         abst += [t[1] for _, t, _ in params if t[0] == "abs"]
         extra = "".join(f" ({a} : Type)" for a in dict.fromkeys(abst)) + extra
-        text = f"(* {self.path}:{fn.lineno} {qual} *)\nDefinition {name}{extra}{binders} : {coq_type(env.ret)} :=\n  {term}.\n"
+        rtype = ("result", env.ret) if env.raises else env.ret
+        text = f"(* {self.path}:{fn.lineno} {qual} *)\nDefinition {name}{extra}{binders} : {coq_type(rtype)} :=\n  {term}.\n"
         self.out[name] = text
         info = {"py": qual, "coq": name, "line": fn.lineno, "params": [n for n, _, _ in params], "variants": []}
         nd = sum(1 for _, _, d in params if d is not None)
-        if nd and not extra:
+        if nd and not extra and not env.raises:
             cenv = Env(self, cls.name if cls else None, {})
             req = params[:len(params) - nd]
             dterms = [self.expr(d, cenv, t)[0] for _, t, d in params[len(req):]]
@@ -289,7 +373,8 @@ class Tr:
                                f"  {name}{''.join(' ' + n for n, _, _ in req)}{''.join(' ' + d for d in dterms)}.\n")
             info["variants"].append(vname)
         self.res.functions.append(info)
-        self.sigs[qual] = (name, params, env.ret, bool(extra))
+        self.sigs[qual] = (name, params, env.ret, extra, env.raises, kind, dict(env.opaques))
+        self.path = saved_path
         return self.sigs[qual]
 
     # ---------------------------------------------------------------- statements
@@ -299,6 +384,8 @@ class Tr:
         names the enclosing `if` assigns."""
         stmts = [s for s in stmts if not isinstance(s, ast.Pass)]
         if not stmts:
+            if final is None and env.root.proc and env.root.raises:
+                return "(inr tt)"
             if final is None:
                 self.no(env.last or "FunctionDef", "control can fall off the end of the function (implicit None)")
             return final(env)
@@ -309,15 +396,80 @@ class Tr:
                 self.no(s, "bare return")
             if rest:
                 self.no(rest[0], "unreachable statement after return")
+            if final is not None:
+                self.no(s, "return inside a branch that only assigns")
+            self.bind_node = s.value if self.raising_call(s.value, env) else None
             term, t = self.expr(s.value, env.allow_bare() if isinstance(s.value, ast.Name) else env, env.ret)
             if env.ret is None:
                 env.ret = t
             elif not same(env.ret, t):
                 self.no(s, f"return type {coq_type(t)} differs from {coq_type(env.ret)}")
+            if env.root.raises and not self.raising_call(s.value, env):
+                return f"(inr {term})"
             return term
+        if isinstance(s, (ast.Raise, ast.Assert)):
+            if final is not None or not env.root.raises:
+                self.no(s, "raise/assert in an unsupported position")
+            if isinstance(s, ast.Assert):
+                cls_name, margs = "AssertionError", ([s.msg] if s.msg is not None else [])
+            else:
+                exc = s.exc
+                if exc is None or s.cause is not None:
+                    self.no(s, "bare raise / raise ... from ...")
+                if isinstance(exc, ast.Call) and isinstance(exc.func, ast.Name) and not exc.keywords:
+                    cls_name, margs = exc.func.id, exc.args
+                elif isinstance(exc, ast.Name):
+                    cls_name, margs = exc.id, []
+                else:
+                    self.no(s, "raise of something other than ExceptionClass(message)")
+                if cls_name in env.vars or cls_name in self.funcs or cls_name in self.consts:
+                    self.no(s, f"raise of {cls_name!r}, which is not an exception class name")
+            if len(margs) > 1:
+                self.no(s, "exception with several arguments")
+            msg = '""'
+            if margs and self.spec.get("raise_messages", True):
+                msg, mt = self.expr(margs[0], env)
+                if mt != STR:
+                    self.no(s, f"exception message of type {coq_type(mt)}")
+            err = f'(inl ("{cls_name}", {msg}))'
+            if isinstance(s, ast.Assert):
+                return f"if {self.cond(s.test, env)} then {self.block(rest, env, final)}\n  else {err}"
+            if rest:
+                self.no(rest[0], "unreachable statement after raise")
+            return err
+        call = s.value if isinstance(s, (ast.Expr, ast.Assign, ast.AnnAssign)) else None
+        if call is not None and self.raising_call(call, env):
+            if final is not None:
+                self.no(s, "call of a raising function inside a branch that only assigns")
+            self.bind_node = call
+            term, t = self.expr(call, env)
+            if isinstance(s, ast.Expr):
+                pat = "_"
+            elif isinstance(s, ast.Assign) and len(s.targets) == 1 and isinstance(s.targets[0], ast.Name):
+                pat = self.ident(s.targets[0].id, s)
+                env.vars[s.targets[0].id] = t
+                env.unnarrow(s.targets[0].id)
+            else:
+                self.no(s, "result of a raising call must be bound to one name")
+            ev = self.fresh("exc")
+            return f"match {term} with\n  | inl {ev} => inl {ev}\n  | inr {pat} => {self.block(rest, env, final)}\n  end"
+        if isinstance(s, ast.If) and self.none_test(s.test, env):
+            subj, is_none = self.none_test(s.test, env)
+            term, t = self.expr(subj, env)
+            if t[0] != "option":
+                self.no(s.test, f"None test on non-Optional {coq_type(t)}")
+            some_b, none_b = (s.orelse, s.body) if is_none else (s.body, s.orelse)
+            v = self.fresh(ast.unparse(subj))
+            e1, e2 = env.fork(), env.fork()
+            e1.narrow[ast.unparse(subj)] = (v, t[1])
+            t1 = self.block(some_b + ([] if always_returns(some_b) else rest), e1, final)
+            e2.ret = e1.ret
+            t2 = self.block(none_b + ([] if always_returns(none_b) else rest), e2, final)
+            env.ret = e2.ret
+            return f"match {term} with\n  | Some {v} => {t1}\n  | None => {t2}\n  end"
         if isinstance(s, ast.If):
             c = self.cond(s.test, env)
-            if not has_return(s.body) and not has_return(s.orelse):
+            if not self.has_exit(s.body, env) and not self.has_exit(s.orelse, env):
                 a1, a2 = assigned(s.body), assigned(s.orelse)
                 # names bound in one branch only and not before are branch-local (unknown afterwards)
                 names = sorted(v for v in a1 | a2 if v in env.vars or (v in a1 and v in a2))
@@ -353,6 +505,7 @@ class Tr:
                 if tg.id in env.mutated and not fresh_list(s.value):
                     self.no(s, f"{tg.id!r} is mutated later but is not bound to a freshly created list here")
                 env.vars[tg.id] = t
+                env.unnarrow(tg.id)
                 return self.ident(tg.id, tg), term
             if isinstance(tg, ast.Tuple) and all(isinstance(e, ast.Name) for e in tg.elts):
                 term, t = self.expr(s.value, env)
@@ -360,6 +513,7 @@ class Tr:
                     self.no(s, f"unpacking of a value of type {coq_type(t)} (only fixed-size tuples)")
                 for e, et in zip(tg.elts, t[1]):
                     env.vars[e.id] = et
+                    env.unnarrow(e.id)
                 pat = self.ident(tg.elts[-1].id, s)
                 for e in reversed(tg.elts[:-1]):
                     pat = f"({self.ident(e.id, s)}, {pat})"
@@ -396,6 +550,8 @@ class Tr:
 
     # ---------------------------------------------------------------- expressions
     def expr(self, e, env: "Env", want=None) -> Tuple[str, Any]:
+        if isinstance(e, (ast.Name, ast.Attribute)) and env.narrow and ast.unparse(e) in env.narrow:
+            return env.narrow[ast.unparse(e)]
         m = getattr(self, "e_" + type(e).__name__, None)
         if m is None:
             self.no(e, "expression outside the supported subset")
@@ -425,6 +581,9 @@ class Tr:
         return self.constant(e.id, e)
 
     def e_Attribute(self, e, env, want):
+        if ast.unparse(e) in self.spec.get("attr_consts", {}):
+            term, ty = self.spec["attr_consts"][ast.unparse(e)]
+            return term, self.ann(ty)
         if isinstance(e.value, ast.Name) and e.value.id in ("cls", "self") and env.cls and f"{env.cls}.{e.attr}" in self.consts \
                 and not (e.value.id == "self" and self._has_field(env, e)):
             return self.constant(f"{env.cls}.{e.attr}", e)
@@ -441,8 +600,29 @@ class Tr:
         return bool(t) and t[0] == "rec" and e.attr in self.spec["records"][t[1]]["fields"]
 
     def e_BoolOp(self, e, env, want):
-        op = "&&" if isinstance(e.op, ast.And) else "||"
-        return "(" + f" {op} ".join(self.cond(v, env) for v in e.values) + ")", BOOL
+        is_and = isinstance(e.op, ast.And)
+        op = "&&" if is_and else "||"
+
+        def narrows(v, en):
+            nt = self.none_test(v, en)
+            return nt if nt and nt[1] != is_and else None      # `x is None or ..` / `x is not None and ..`
+
+        def go(values, en):
+            if len(values) == 1:
+                return self.cond(values[0], en)
+            nt = narrows(values[0], en)
+            if nt:
+                term, t = self.expr(nt[0], en)
+                if t[0] != "option":
+                    self.no(values[0], f"None test on non-Optional {coq_type(t)}")
+                v = self.fresh(ast.unparse(nt[0]))
+                e2 = en.fork()
+                e2.narrow[ast.unparse(nt[0])] = (v, t[1])
+                return f"(match {term} with None => {'false' if is_and else 'true'} | Some {v} => {go(values[1:], e2)} end)"
+            return f"({self.cond(values[0], en)} {op} {go(values[1:], en)})"
+        if not any(narrows(v, env) for v in e.values[:-1]):
+            return "(" + f" {op} ".join(self.cond(v, env) for v in e.values) + ")", BOOL
+        return go(list(e.values), env), BOOL
 
     def e_UnaryOp(self, e, env, want):
         if isinstance(e.op, ast.Not):
@@ -634,6 +814,36 @@ class Tr:
             self.no(e, f"iteration over {coq_type(t)}")
         return term, t
 
+    def listlike(self, e, env):
+        """A list-valued argument: a generator expression / list comprehension (single `for name in
+        iterable`, optional `if`s) is read as map/filter, anything else must have a list type."""
+        if isinstance(e, (ast.GeneratorExp, ast.ListComp)):
+            return self.e_ListComp(e, env, None)
+        return self.expr(e, env.allow_bare())
+
+    def str_format(self, e, fmt, args, env):
+        """`"..{}..".format(a, b)` on a literal with plain `{}` fields = the f-string concatenation."""
+        import string
+        try:
+            fields = list(string.Formatter().parse(fmt))
+        except ValueError as err:
+            self.no(e, f"malformed format string ({err})")
+        parts, k = [], 0
+        for lit, name, spec, conv in fields:
+            if lit:
+                parts.append(self.e_Constant(ast.copy_location(ast.Constant(lit), e), env, None)[0])
+            if name is None:
+                continue
+            if name != "" or spec or conv:
+                self.no(e, "str.format with named/numbered fields, a conversion or a format spec")
+            if k >= len(args):
+                self.no(e, "str.format with fewer arguments than fields")
+            parts.append(self.to_str(args[k], env))
+            k += 1
+        if k != len(args):
+            self.no(e, "str.format with more arguments than fields")
+        return ("(" + " ++ ".join(parts) + ")%string" if parts else '""'), STR
+
     def e_ListComp(self, e, env, want):
         it, e2, v = self.comp(e.generators, env, e)
         body, bt = self.expr(e.elt, e2)
@@ -642,11 +852,39 @@ class Tr:
         return f"(List.map (fun {v} => {body}) {it})", ("list", bt)
 
     def e_Call(self, e, env, want):
-        if e.keywords or any(isinstance(a, ast.Starred) for a in e.args):
-            self.no(e, "keyword or starred arguments")
-        f, args = e.func, e.args
-        if isinstance(f, ast.Attribute) and not (isinstance(f.value, ast.Name) and f.value.id in ("cls", "self")
-                                                 and env.cls and f"{env.cls}.{f.attr}" in self.funcs):
+        f, args = e.func, list(e.args)
+        fname = ast.unparse(f)
+        if e.keywords and fname in self.spec.get("opaque", {}) and all(k.arg for k in e.keywords):
+            args += [k.value for k in e.keywords]       # opaque: keyword values passed on in source order
+            note = f"{fname}: keyword arguments {[k.arg for k in e.keywords]} passed positionally in source order"
+            if note not in self.res.assumed:
+                self.res.assumed.append(note)
+        elif e.keywords:
+            self.no(e, "keyword arguments")
+        if any(isinstance(a, ast.Starred) for a in args):
+            self.no(e, "starred arguments")
+        if fname in self.spec.get("extern", {}):
+            x = self.spec["extern"][fname]
+            items = [self.expr(a, env) for a in args]
+            pts = [self.ann(p) for p in x["params"]]
+            if len(pts) != len(items) or any(not same(t, pt) for (_, t), pt in zip(items, pts)):
+                self.no(e, f"arguments of extern function {fname}")
+            note = f"{fname}(..) read as the Coq function {x['coq']}: {x.get('why', '')}"
+            if note not in self.res.assumed:
+                self.res.assumed.append(note)
+            return f"({x['coq']} {' '.join(t for t, _ in items)})", self.ann(x["ret"])
+        tq = self.target(f, env.cls)
+        if tq and isinstance(f, ast.Attribute):
+            cname, ps, ret, extra, raises, kind, opq = self.function(tq, e)
+            if kind == "inst":
+                if "self" not in env.vars:
+                    self.no(e, "method call without self")
+                args = [ast.copy_location(ast.Name("self", ast.Load()), e)] + args
+            return self.call_fn(e, tq, args, env)
+        if isinstance(f, ast.Attribute) and f.attr == "format" and isinstance(f.value, ast.Constant) \
+                and isinstance(f.value.value, str):
+            return self.str_format(e, f.value.value, args, env)
+        if isinstance(f, ast.Attribute):
             recv, rt = self.expr(f.value, env)
             if rt == STR:
                 return self.str_method(e, recv, f.attr, args, env)
@@ -656,7 +894,7 @@ class Tr:
         name = f.id if isinstance(f, ast.Name) else f"{env.cls}.{f.attr}"
         if name in env.vars or (name in BUILTINS and (name in self.funcs or name in self.consts)):
             self.no(e, f"call of {name!r}, which is a local value or a redefined builtin")
-        if name in ("any", "all") and len(args) == 1 and isinstance(args[0], ast.GeneratorExp):
+        if name in ("any", "all") and len(args) == 1 and isinstance(args[0], (ast.GeneratorExp, ast.ListComp)):
             it, e2, v = self.comp(args[0].generators, env, e)
             fn = "List.existsb" if name == "any" else "List.forallb"
             return f"({fn} (fun {v} => {self.cond(args[0].elt, e2)}) {it})", BOOL
@@ -665,6 +903,10 @@ class Tr:
             if t[1] != BOOL:
                 self.no(e, f"{name}() over non-bool elements (truthiness)")
             return f"({'List.existsb' if name == 'any' else 'List.forallb'} (fun b => b) {it})", BOOL
+        if name == "list" and len(args) == 1 and "list" not in self.funcs and "list" not in self.consts:
+            term, t = self.listlike(args[0], env)
+            if t[0] == "list":
+                return term, t
         if name == "len" and len(args) == 1:
             term, t = self.expr(args[0], env.allow_bare())
             if t == STR:
@@ -680,8 +922,8 @@ class Tr:
             if args[0].id == "str" and t[1] in (Z, N):
                 return f"(List.map py_str_of_{t[1]} {it})", ("list", STR)
             if args[0].id in self.funcs:
-                cname, ps, ret, opq = self.function(args[0].id, e)
-                if len(ps) == 1 and same(ps[0][1], t[1]) and not opq:
+                cname, ps, ret, opq, raises = self.function(args[0].id, e)[:5]
+                if len(ps) == 1 and same(ps[0][1], t[1]) and not opq and not raises:
                     return f"(List.map {cname} {it})", ("list", ret)
         if name in self.spec.get("casts", {}) and len(args) == 1:
             term, t = self.expr(args[0], env, want)
@@ -697,21 +939,30 @@ class Tr:
                 self.no(e, f"opaque function {name} used at two different types")
             return f"(py_{name} {' '.join(x for x, _ in items)})", rt
         if name in self.funcs and name not in BUILTINS:
-            cname, ps, ret, opq = self.function(name, e)
-            if opq:
-                self.no(e, f"call of {name}, which depends on an opaque function")
-            if len(args) > len(ps) or any(d is None for _, _, d in ps[len(args):]):
-                self.no(e, f"wrong number of arguments for {name}")
-            terms = []
-            for a, (pn, pt, _) in zip(args, ps):
-                term, t = self.expr(a, env, pt)
-                if not same(t, pt):
-                    self.no(a, f"argument of type {coq_type(t)} for parameter {pn} : {coq_type(pt)}")
-                terms.append(term)
-            cenv = Env(self, name.split(".")[0] if "." in name else None, {})
-            terms += [self.expr(d, cenv, pt)[0] for _, pt, d in ps[len(args):]]
-            return f"({cname} {' '.join(terms)})", ret
+            return self.call_fn(e, name, args, env)
         self.no(e, f"call of {ast.unparse(f)!r}")
+
+    def call_fn(self, e, qual, args, env):
+        """Call of a translated function; opaque parameters of the callee are passed on."""
+        cname, ps, ret, extra, raises, kind, opq = self.function(qual, e)
+        if raises and e is not self.bind_node:
+            self.no(e, f"call of {qual}, which can raise, inside an expression (only `f(..)`, `x = f(..)`, `return f(..)`)")
+        for oname, sig in opq.items():
+            if env.root.opaques.setdefault(oname, sig) != sig:
+                self.no(e, f"opaque function {oname} used at two different types")
+        if extra and [t for o in opq.values() for t in o[0] + [o[1]] if t[0] == "abs"]:
+            self.no(e, f"call of {qual}, which has abstract type parameters")
+        if len(args) > len(ps) or any(d is None for _, _, d in ps[len(args):]):
+            self.no(e, f"wrong number of arguments for {qual}")
+        terms = [f"py_{o}" for o in opq]
+        for a, (pn, pt, _) in zip(args, ps):
+            term, t = self.expr(a, env, pt)
+            if not same(t, pt):
+                self.no(a, f"argument of type {coq_type(t)} for parameter {pn} : {coq_type(pt)}")
+            terms.append(term)
+        cenv = Env(self, qual.split(".")[0] if "." in qual else None, {})
+        terms += [self.expr(d, cenv, pt)[0] for _, pt, d in ps[len(args):]]
+        return f"({cname} {' '.join(terms)})", ret
 
     def str_method(self, e, recv, meth, args, env):
         def sarg(i):
@@ -726,7 +977,7 @@ class Tr:
             ty = {"find": Z, "split": ("list", STR)}.get(meth, BOOL if meth.endswith("with") else STR)
             return f"(py_{meth} {recv} {a})", ty
         if meth == "join" and len(args) == 1:
-            term, t = self.expr(args[0], env.allow_bare())
+            term, t = self.listlike(args[0], env)
             if not same(t, ("list", STR)):
                 self.no(e, f".join() of {coq_type(t)}")
             return f"(py_join {recv} {term})", STR
@@ -739,6 +990,12 @@ class Env:
         self.params, self.mutated, self.ret, self.last = set(), set(), None, None
         self.opaques: Dict[str, Any] = {}
         self.root, self.bare_ok = self, False
+        self.raises, self.proc = False, False
+        self.narrow: Dict[str, Any] = {}
+
+    def unnarrow(self, name):
+        for k in [k for k in self.narrow if re.search(rf"\b{re.escape(name)}\b", k)]:
+            del self.narrow[k]
 
     def name(self, v):
         return self.tr.ident(v, "Name")
@@ -746,11 +1003,12 @@ class Env:
     def fork(self):
         e = Env(self.tr, self.cls, dict(self.vars))
         e.params, e.mutated, e.ret, e.root, e.bare_ok = self.params, self.mutated, self.ret, self.root, self.bare_ok
+        e.narrow = dict(self.narrow)
         return e
 
     def allow_bare(self):
         e = self.fork()
-        e.vars, e.bare_ok = self.vars, True
+        e.vars, e.bare_ok, e.narrow = self.vars, True, self.narrow
         return e
 
 
@@ -774,7 +1032,7 @@ def always_returns(stmts) -> bool:
     if not stmts:
         return False
     s = stmts[-1]
-    return isinstance(s, ast.Return) or (isinstance(s, ast.If) and always_returns(s.body) and always_returns(s.orelse))
+    return isinstance(s, (ast.Return, ast.Raise)) or (isinstance(s, ast.If) and always_returns(s.body) and always_returns(s.orelse))
 
 
 def assigned(stmts) -> set:
@@ -813,10 +1071,16 @@ Local Open Scope string_scope.
 """
 
 
-def translate(path: str, spec: Dict[str, Any], shown_path: Optional[str] = None) -> Result:
+def translate(path: str, spec: Dict[str, Any], shown_path: Optional[str] = None, root: Optional[str] = None) -> Result:
+    """`spec["extra_sources"]`: further modules (paths relative to `root`) whose functions may be called."""
     with open(path) as fh:
         src = fh.read()
-    tr = Tr(shown_path or path, src, spec)
+    extra = []
+    for rel in spec.get("extra_sources", []):
+        with open(os.path.join(root or os.path.dirname(path), rel)) as fh:
+            extra.append((rel, fh.read()))
+    tr = Tr(shown_path or path, src, spec, extra)
+    tr.res.extra_sha256 = {rel: hashlib.sha256(t.encode()).hexdigest() for rel, t in extra}
     for f in spec["functions"]:
         tr.function(f["py"])
     for c in spec.get("constants", []):
